@@ -13,7 +13,7 @@ out = open("/tmp/mut/eval.jsonl", "a")
 for d in dirs:
     prop = d.split("/")[-2]
     sh("git checkout -q --detach $(git -C /repo rev-parse HEAD) && git checkout -- . && git clean -fdq", cwd=WT)
-    rc, o = sh("git apply %s/patch.diff" % d, cwd=WT)
+    rc, o = sh("git apply --3way %s/patch.diff" % d, cwd=WT)
     rec = {"dir": d, "prop": prop, "applies": rc == 0, "checks": {}}
     if rc != 0:
         rec["apply_err"] = o[-300:]
